@@ -2,7 +2,7 @@
    equality / hashing functions: Note.__eq__/__hash__, Melody.__eq__ (equality of
    the printed code), Tonality.__eq__ (Ton.v), Chord.chord_equals/score_equals/
    __eq__/__hash__, Score.__eq__. *)
-From ML Require Import Model.Types gen.Tables Model.Pitch Model.Ton.
+From ML Require Import Model.Types gen.Tables Model.Pitch Model.Ton Model.Tags.
 From Coq Require Import QArith.
 Open Scope Z_scope.
 
@@ -63,7 +63,7 @@ Definition note_code (n : fnote) : ncode :=
       (fmode n)
       (facc n)
       (if isn || isx || isd then (let f := amp_figure (famp n) in if ampfig_eqb f Fmf then None else Some f) else None)
-      (ftags n).
+      (sort_tags (ftags n)).                                           (* the tag SET, listed in sorted order *)
 
 Definition ncode_eqb (a b : ncode) : bool :=
   kind_eqb (c_kind a) (c_kind b) && dir_eqb (c_dir a) (c_dir b) && option_eqb Z.eqb (c_val a) (c_val b) &&
